@@ -85,10 +85,9 @@ func TestC18Replicas(t *testing.T) {
 	tier := os.Getenv("VERIF_TIER")
 	outdir := os.Getenv("VERIF_OUTDIR")
 	bin := os.Getenv("VERIF_BIN")
-	profiles := []string{"valset", "slash", "lifecycle"}
+	profiles := []string{"valset", "slash", "lifecycle", "rewards", "keys"}
 	perProfile, childProcs := 1, 1
 	if tier == "thorough" {
-		profiles = []string{"valset", "slash", "lifecycle", "rewards", "keys"}
 		perProfile, childProcs = 6, 2
 	}
 	agg := NewWorld(t, fmt.Sprintf("c18-replicas-%s-%d", tier, seed), Config{Seed: seed, Profile: "replica", Tier: tier})
